@@ -38,6 +38,8 @@ def dump(include, workdir, compiler="clang++"):
                 '#include "rlbox_noop_sandbox.hpp"\n#include "rlbox.hpp"\nusing S = rlbox::rlbox_noop_sandbox;\n')
         for name, ty in KINDS.items():
             f.write("void use_%s(const rlbox::tainted<double*, S>& p, %s k) { (void)(p + k); (void)(p - k); (void)p[k]; }\n" % (name, ty))
+            if name != "bool":     # std::make_unsigned_t<bool> is ill-formed: a bool index does not compile
+                f.write("void usea_%s(const rlbox::tainted<double[7], S>& a, const rlbox::tainted_volatile<double[9], S>& v, %s k) { (void)a[k]; (void)v[k]; }\n" % (name, ty))
     r = subprocess.run([compiler, "-std=c++17", "-w", "-I" + include, "-fsyntax-only", "-Xclang", "-ast-dump=json",
                         "-Xclang", "-ast-dump-filter=rlbox::tainted_base_impl", tu], stdout=subprocess.PIPE, stderr=subprocess.PIPE, text=True)
     if r.returncode != 0:
@@ -58,7 +60,8 @@ def dump(include, workdir, compiler="clang++"):
             if spec.get("kind") != "ClassTemplateSpecializationDecl":
                 continue
             args = [a.get("type", {}).get("qualType") for a in spec.get("inner", []) if a.get("kind") == "TemplateArgument"]
-            if "double *" not in args:
+            which = "ptr" if "double *" in args else "arrT" if "double[7]" in args else "arrV" if "double[9]" in args else None
+            if which is None:
                 continue
             helpers = {}
             for m in spec.get("inner", []):
@@ -80,7 +83,10 @@ def dump(include, workdir, compiler="clang++"):
                         k = tkind(targs[0]["type"])
                     except Unknown:
                         continue
-                    out[(OPS[m["name"]], k)] = (body[0], helpers)
+                    if which == "ptr":
+                        out[(OPS[m["name"]], k)] = (body[0], helpers)
+                    elif m["name"] == "operator[]":
+                        out[(which, k)] = (body[0], helpers)
     return out
 
 
@@ -118,9 +124,19 @@ class Tr:
                 if ck != "VarDecl":
                     raise Unknown("declaration " + str(ck))
                 init = c.get("inner", [])
+                if len(init) == 0:
+                    self.env[c["name"]] = ("unset",)       # assigned later
+                    continue
                 if len(init) != 1:
                     raise Unknown("variable without a single initialiser: " + str(c.get("name")))
                 self.env[c["name"]] = self.value(init[0], c.get("type", {}))
+        elif k == "BinaryOperator" and n.get("opcode") == "=":
+            lhs, rhs = n["inner"]
+            lhs = self.strip(lhs)
+            name = lhs.get("referencedDecl", {}).get("name") if lhs.get("kind") == "DeclRefExpr" else None
+            if name not in self.env:
+                raise Unknown("assignment to something that is not a local variable")
+            self.env[name] = self.value(rhs, lhs.get("type", {}))
         elif k == "ReturnStmt":
             self.out.append(("ret", self.expr(n["inner"][0])))
             self.done = True
@@ -207,7 +223,7 @@ class Tr:
         if n.get("kind") != "CXXMemberCallExpr":
             return False
         m = n["inner"][0]
-        return m.get("kind") == "MemberExpr" and m.get("name") in ("get_raw_value", "get_raw_value_ref")
+        return m.get("kind") == "MemberExpr" and m.get("name") in ("get_raw_value", "get_raw_value_ref", "get_sandbox_value_ref")
 
     # ---- expressions (integers and addresses)
     def expr(self, n):
@@ -229,10 +245,12 @@ class Tr:
             if name in self.env:
                 v = self.env[name]
                 if v[0] != "e":
-                    raise Unknown("boolean used as a number: " + str(name))
+                    raise Unknown("boolean or unset variable used as a number: " + str(name))
                 return v[1]
             if name == "rhs":
                 return ("rhs",)
+            if name == "extent_v":
+                return ("extent",)
             raise Unknown("reference to " + str(name))
         if k == "CXXMemberCallExpr" and self.this_raw(n):
             return ("ptr",)
@@ -243,7 +261,7 @@ class Tr:
                 return self.expr(a[0])
             if callee == "internal_factory" and len(a) == 1:
                 return self.expr(a[0])
-            if callee in ("forward", "move", "as_const") and len(a) == 1:
+            if callee in ("forward", "move", "as_const", "remove_volatile_from_ptr_cast") and len(a) == 1:
                 return self.expr(a[0])
             raise Unknown("call in expression: " + str(callee))
         if k == "CXXOperatorCallExpr":
@@ -252,9 +270,16 @@ class Tr:
             a = self.args(n)
             if callee == "operator*" and len(a) == 1:
                 return self.expr(a[0])
+            if callee == "operator[]" and len(a) == 2 and self.expr(a[0]) == ("ptr",):
+                return ("elem", self.expr(a[1]))      # element i of the array the wrapper holds
             raise Unknown("operator call " + str(callee))
         if k == "UnaryOperator" and n.get("opcode") in ("*", "&"):
             return self.expr(n["inner"][0])
+        if k == "ArraySubscriptExpr":
+            a, b = n["inner"]
+            if self.expr(a) == ("ptr",):
+                return ("elem", self.expr(b))
+            raise Unknown("subscript of something else than the held array")
         if k == "BinaryOperator" and n.get("opcode") in BOP:
             a, b = n["inner"]
             return ("bin", BOP[n["opcode"]], tkind(n["type"]), self.expr(a), self.expr(b))
@@ -317,6 +342,10 @@ def coq_e(e):
         return "PStride"
     if t == "appsize":
         return "PAppSize"
+    if t == "extent":
+        return "PExtent"
+    if t == "elem":
+        return "(PElem %s)" % coq_e(e[1])
     if t == "cast":
         return "(PCast %s %s)" % (COQK[e[1]], coq_e(e[2]))
     if t == "bin":
@@ -351,7 +380,8 @@ def translate(include, workdir):
         if not t.done:
             raise Unknown("no return in %s<%s>" % key)
         progs[key] = t.out
-    missing = [(o, k) for o in ("add", "sub", "idx") for k in KINDS if (o, k) not in progs]
+    missing = [(o, k) for o in ("add", "sub", "idx") for k in KINDS if (o, k) not in progs] + \
+              [(o, k) for o in ("arrT", "arrV") for k in KINDS if k != "bool" and (o, k) not in progs]
     if missing:
         raise Unknown("instantiations missing from the AST: " + str(missing[:5]))
     return progs
@@ -415,14 +445,32 @@ def emit_range(prog):
                       "From RLBoxV Require Import PtrAst.", "Local Open Scope Z_scope.", "",
                       "Definition rprog_check_range : list pstmt := [%s]." % "; ".join(stmts),
                       "Lemma rprog_check_range_ok : forall l p n, in_range IULong p = true -> in_range IULong n = true ->",
-                      "  pchecks l 0 0 p n rprog_check_range = check_range code_range_guarded l p n.",
+                      "  pchecks l 0 0 0 p n rprog_check_range = check_range code_range_guarded l p n.",
                       "Proof. unfold rprog_check_range. range_ast_tac. Qed.", ""]) + "\n"
 
 
 SPEC = {"add": "ptr_arith l false p n stride", "sub": "ptr_arith l true p n stride", "idx": "ptr_index_gen code_index_nullcheck l p n stride"}
 
 
+def emit_arrays(progs):
+    """the fixed-size-array branch of operator[] (C17): tainted<double[7]> and tainted_volatile<double[9]>, 14 index types"""
+    lines = ["(* generated by harness/m3_ptr.py from clang's AST of the instantiated array operator[] — do not edit *)",
+             "From RLBoxV Require Import PtrAst.", "Local Open Scope Z_scope.", ""]
+    for (op, k) in sorted(progs):
+        if op not in ("arrT", "arrV"):
+            continue
+        stmts = ["PCheck %s" % coq_c(st[1]) if st[0] == "check" else "PRet %s" % coq_e(st[1]) for st in progs[(op, k)]]
+        name = "aprog_%s_%s" % (op, k)
+        lines.append("Definition %s : list pstmt := [%s]." % (name, "; ".join(stmts)))
+        lines.append("Lemma %s_ok : forall l stride len p n, in_range %s n = true -> 0 <= len < M64 ->" % (name, COQK[k]))
+        lines.append("  prun l stride 0 len p n %s = arr_index %s n len p stride." % (name, COQK[k]))
+        lines.append("Proof. unfold %s. arr_ast_tac. Qed." % name)
+        lines.append("")
+    return "\n".join(lines) + "\n"
+
+
 def emit(progs):
+    progs = {k: v for k, v in progs.items() if k[0] in SPEC}
     lines = ["(* generated by harness/m3_ptr.py from clang's AST of the instantiated pointer operators — do not edit *)",
              "From RLBoxV Require Import PtrAst.", "Local Open Scope Z_scope.", ""]
     for (op, k) in sorted(progs):
@@ -432,17 +480,61 @@ def emit(progs):
         name = "pprog_%s_%s" % (op, k)
         lines.append("Definition %s : list pstmt := [%s]." % (name, "; ".join(stmts)))
         lines.append("Lemma %s_ok : forall l stride appsz p n, in_range IULong p = true -> in_range %s n = true -> 0 <= stride < M64 ->" % (name, COQK[k]))
-        lines.append("  prun l stride appsz p n %s = %s." % (name, SPEC[op]))
+        lines.append("  prun l stride appsz 0 p n %s = %s." % (name, SPEC[op]))
         lines.append("Proof. unfold %s. ptr_ast_tac. Qed." % name)
         lines.append("")
     return "\n".join(lines) + "\n"
+
+
+def run_generated(ctx, M3, fname, text):
+    """write coq/<fname>, let coqc check it, record the outcome in M3 (lemmas, failed)"""
+    import re
+    from harness import vlib
+    lock = vlib.coq_lock()
+    try:
+        with open(os.path.join(vlib.COQ, fname), "w") as f:
+            f.write(text)
+        rc, out = vlib.sh(["timeout", "600", "coqc", "-Q", ".", "RLBoxV", fname], cwd=vlib.COQ, timeout=700)
+    finally:
+        lock.close()
+    M3["lemmas"] = text.count("Lemma ")
+    M3["failed"] = []
+    if rc != 0:
+        m = re.search(r'line (\d+)', out)
+        name = "?"
+        if m:
+            lines = text.splitlines()
+            for k in range(min(int(m.group(1)), len(lines)) - 1, -1, -1):
+                if lines[k].startswith("Lemma ") or lines[k].startswith("Definition "):
+                    name = lines[k].split()[1]
+                    break
+        M3["failed"].append((name, out[-1500:]))
+
+
+def report(ctx, M3, prop, what, fname, spec_name):
+    """the extra_checks half shared by the properties that use this translator"""
+    if "untranslated" in M3:
+        ctx.coverage["m3_status"] = "NOT TRANSLATED this run (tie falls back to the differential correspondence): " + M3["untranslated"]
+        print("NOTE %s: %s AST not translated (%s); tie = differential correspondence only" % (prop, what, M3["untranslated"][:160]))
+        return
+    n = M3.get("lemmas", 0)
+    ctx.coverage["obligations"] = ctx.coverage.get("obligations", 0) + n
+    ctx.coverage["discharged"] = ctx.coverage.get("discharged", 0) + (n if not M3["failed"] else 0)
+    ctx.coverage["m3_status"] = "translated"
+    ctx.coverage["m3_generated_lemmas_proved_for_all_inputs"] = n if not M3["failed"] else 0
+    ctx.coverage["m3_samples"] = M3.get("sample", {})
+    for name, out in M3["failed"][:3]:
+        ctx.violations.append({"kind": "broken-proof", "case": "%s: %s" % (fname, name), "impl": "", "model": out, "spec": "", "class": "m3",
+                               "what": "the program translated from the AST of this instantiated %s is no longer provably equal to %s for all inputs" % (what, spec_name)})
 
 
 if __name__ == "__main__":
     import sys
     inc, work = sys.argv[1], sys.argv[2]
     os.makedirs(work, exist_ok=True)
-    if len(sys.argv) > 3 and sys.argv[3] == "range":
+    if len(sys.argv) > 3 and sys.argv[3] == "arrays":
+        print(emit_arrays(translate(inc, work)))
+    elif len(sys.argv) > 3 and sys.argv[3] == "range":
         print(emit_range(translate_range(inc, work)))
     else:
         print(emit(translate(inc, work)))
